@@ -959,8 +959,8 @@ int main(int argc, char **argv)
 			snprintf(cur_id, sizeof cur_id, "%s", ARG(1));
 			cmd_index = 0;
 			alarm(nt > 2 ? atoi(t[2]) : 20);
-			fprintf(out, "{\"begin\":\"%s\",\"live\":%ld,\"streams\":%ld,\"fds\":%d,\"out\":%ld}\n",
-				cur_id, vf_live_blocks, vf_open_streams, count_fds(), stray_stdout());
+			fprintf(out, "{\"begin\":\"%s\",\"live\":%ld,\"streams\":%ld,\"fds\":%d,\"out\":%ld,\"scratch\":\"%s\"}\n",
+				cur_id, vf_live_blocks, vf_open_streams, count_fds(), stray_stdout(), scratch);
 			fflush(out);
 		} else if (strcmp(t[0], "end") == 0) {
 			reset_all();
